@@ -1,15 +1,44 @@
-//! kv-store: conformance harness crate (see /verif/DESIGN.md).
+//! kv-store: conformance harness for the aggregate / WAL store protocol
+//! (C07) and for replay = snapshot = live (C06). See /verif/DESIGN.md.
 #![allow(dead_code)]
 
 #[path = "../../harness/src/common.rs"]
 mod common;
+mod ca;
+mod conc;
+mod ctr;
+mod hist;
+mod norm;
+mod setup;
+
+use std::path::PathBuf;
+
+fn arg(args: &[String], name: &str) -> Option<String> {
+    args.iter().position(|a| a == name).and_then(|i| args.get(i + 1)).cloned()
+}
+
+fn flag(args: &[String], name: &str) -> bool {
+    args.iter().any(|a| a == name)
+}
 
 fn main() {
     common::install_panic_hook();
     let args: Vec<String> = std::env::args().collect();
+    let input = arg(&args, "--in").map(PathBuf::from);
+    let out = arg(&args, "--out").map(PathBuf::from);
+    let work = arg(&args, "--work").map(PathBuf::from);
     match args.get(1).map(|s| s.as_str()).unwrap_or("") {
+        "run-conc" => {
+            conc::run(
+                &input.unwrap(), &out.unwrap(), &work.unwrap(),
+                flag(&args, "--raw"),
+            );
+        }
+        "run-hist" => {
+            hist::run(&input.unwrap(), &out.unwrap(), &work.unwrap());
+        }
         _ => {
-            eprintln!("usage: kv-store <subcommand> --in <behaviours.ndjson> --out <trace.ndjson> --work <dir>");
+            eprintln!("usage: kv-store <run-conc|run-hist> --in <behaviours.ndjson> --out <trace.ndjson> --work <dir> [--raw]");
             std::process::exit(2);
         }
     }
